@@ -12,6 +12,8 @@ import (
 	"strings"
 
 	"gmcheck/core"
+
+	"golang.org/x/tools/go/ssa"
 )
 
 // charTagSwitches: switch statements in fn whose cases are character constants
@@ -89,20 +91,14 @@ func (c *Ctx) SNBTSuffix() []core.Ob {
 		return core.Ob{Rule: "T-SNBTSUF", Key: key, Want: want, Armed: true, Status: core.OK}
 	}
 	var obs []core.Ob
-	encFn := c.Fn("nbt.(*StringifiedMessage).encode")
-	plFn := c.Fn("nbt.parseLiteral")
-	if encFn == nil || plFn == nil {
-		o := mk("anchors", "encode and parseLiteral exist")
+	plFn := c.literalParser()
+	if plFn == nil {
+		o := mk("anchors", "the SNBT literal classifier (a function of package nbt with the integer and float suffix switches) exists")
 		o.Status, o.Got = core.Violated, "not found"
 		return []core.Ob{o}
 	}
 	// ---- writer: per tag, suffixes and array prefix
-	var ws *tagSwitch
-	for _, ts := range c.tagSwitches("nbt") {
-		if ts.fn == "nbt.(*StringifiedMessage).encode" && len(ts.cases) >= 9 {
-			ws = ts
-		}
-	}
+	ws := c.dispatchOf("StringifiedMessage", false)
 	if ws == nil {
 		o := mk("writer-dispatch", "the text writer's tag dispatch is found")
 		o.Status, o.Got = core.Violated, "not found"
@@ -163,10 +159,50 @@ func (c *Ctx) SNBTSuffix() []core.Ob {
 		return append(obs, o)
 	}
 	ev := &skelEval{c: c, sizes: pk.TypesSizes}
-	class := func(fnName string, ch byte) (bool, error) {
-		fn := c.Fn(fnName)
+	// the suffix classifiers are found by behaviour among the byte predicates parseLiteral calls:
+	// the integer one accepts B, S, L and rejects digits; the float one accepts F, D and rejects B
+	var intClass, floatClass *ssa.Function
+	for _, ci := range callsIn(plFn, func(string, *ssa.CallCommon) bool { return true }) {
+		sc := ci.Common().StaticCallee()
+		if sc == nil || !inPkgs(sc, "nbt") || len(sc.Params) != 1 || sc.Signature.Results().Len() != 1 {
+			continue
+		}
+		if b, ok := sc.Signature.Results().At(0).Type().Underlying().(*types.Basic); !ok || b.Kind() != types.Bool {
+			continue
+		}
+		accepts := func(chars string) (all, none bool) {
+			all, none = true, true
+			for _, ch := range []byte(chars) {
+				r, err := ev.run(sc, []*big.Int{bi(int64(ch))})
+				if err != nil {
+					return false, false
+				}
+				if r.Sign() != 0 {
+					none = false
+				} else {
+					all = false
+				}
+			}
+			return
+		}
+		aInt, _ := accepts("BSL")
+		_, nDig := accepts("09.")
+		aFl, _ := accepts("FD")
+		_, nB := accepts("B0")
+		switch {
+		case aInt && nDig:
+			intClass = sc
+		case aFl && nB && nDig:
+			floatClass = sc
+		}
+	}
+	class := func(kind string, ch byte) (bool, error) {
+		fn := intClass
+		if kind == "float" {
+			fn = floatClass
+		}
 		if fn == nil {
-			return false, fmt.Errorf("%s not found", fnName)
+			return false, fmt.Errorf("no %s-suffix classifier recognised among the byte predicates of the literal parser", kind)
 		}
 		r, err := ev.run(fn, []*big.Int{bi(int64(ch))})
 		if err != nil {
@@ -208,20 +244,20 @@ func (c *Ctx) SNBTSuffix() []core.Ob {
 		default:
 			ch := suf[0]
 			if isInt {
-				okc, err := class("nbt.isIntegerType", ch)
+				okc, err := class("int", ch)
 				if err != nil {
 					o.Status, o.Got = core.Violated, err.Error()
 				} else if !okc {
-					o.Status, o.Got = core.Violated, fmt.Sprintf("the writer emits suffix %q but isIntegerType(%q) is false: the literal is read as a string, not as %s", suf, suf, want)
+					o.Status, o.Got = core.Violated, fmt.Sprintf("the writer emits suffix %q but the parser's integer-suffix predicate rejects %q: the literal is read as a string, not as %s", suf, suf, want)
 				} else if intTbl[int64(ch)] != want {
 					o.Status, o.Got = core.Violated, fmt.Sprintf("suffix %q maps to %s in the parser, the writer used it for %s", suf, intTbl[int64(ch)], want)
 				}
 			} else {
-				okc, err := class("nbt.isFloatType", ch)
+				okc, err := class("float", ch)
 				if err != nil {
 					o.Status, o.Got = core.Violated, err.Error()
 				} else if !okc {
-					o.Status, o.Got = core.Violated, fmt.Sprintf("isFloatType(%q) is false", suf)
+					o.Status, o.Got = core.Violated, fmt.Sprintf("the parser's float-suffix predicate rejects %q", suf)
 				} else {
 					ft, okf := floatTbl[int64(ch)]
 					if !okf {
@@ -237,18 +273,30 @@ func (c *Ctx) SNBTSuffix() []core.Ob {
 	}
 	// ---- array prefix tables: writer prefix, TagType(), writeListOrArray agree
 	var prefTables []map[int64]string
-	for _, n := range []string{"nbt.(StringifiedMessage).TagType", "nbt.writeListOrArray"} {
-		fn := c.Fn(n)
-		if fn == nil {
+	for _, fn := range c.Funcs() {
+		if !inPkgs(fn, "nbt") || fn.Parent() != nil {
 			continue
 		}
 		d, p := c.astFuncDecl(fn)
+		if d == nil || p == nil {
+			continue
+		}
 		for _, tb := range charTagTables(p.TypesInfo, d.Body) {
 			arr := true
 			for k, v := range tb {
 				if k >= 0 && !strings.HasSuffix(v, "Array") {
 					arr = false
 				}
+			}
+			// a prefix table maps at least two of the prefix characters B, I, L
+			nPref := 0
+			for _, ch := range []int64{'B', 'I', 'L'} {
+				if _, ok := tb[ch]; ok {
+					nPref++
+				}
+			}
+			if nPref < 2 {
+				arr = false
 			}
 			if arr {
 				prefTables = append(prefTables, tb)
@@ -274,6 +322,34 @@ func (c *Ctx) SNBTSuffix() []core.Ob {
 	}
 	obs = append(obs, po)
 	return obs
+}
+
+// literalParser: the function of package nbt holding both numeric suffix switches.
+func (c *Ctx) literalParser() *ssa.Function {
+	for _, fn := range c.Funcs() {
+		if !inPkgs(fn, "nbt") || fn.Parent() != nil {
+			continue
+		}
+		d, p := c.astFuncDecl(fn)
+		if d == nil || p == nil {
+			continue
+		}
+		hasInt, hasFloat := false, false
+		for _, tb := range charTagTables(p.TypesInfo, d.Body) {
+			_, b := tb['B']
+			_, f := tb['F']
+			if b {
+				hasInt = true
+			}
+			if f && !b {
+				hasFloat = true
+			}
+		}
+		if hasInt && hasFloat {
+			return fn
+		}
+	}
+	return nil
 }
 
 func tagValueByName(ts *tagSwitch, name string) int64 {
